@@ -1,12 +1,50 @@
-(* C20 proofs: a collecting semantics (reachable sets of worlds, per outcome) for Lib.StatusLang
-   programs, proved sound for EVERY loop count, EVERY branch outcome and EVERY fault oracle
-   (loops by a checked inductive invariant).  The property theorems are then instances: the checker
-   is evaluated on the generated pipeline by vm_compute. *)
+(* C20 proofs: a collecting semantics (reachable sets of (outcome, world) pairs) for Lib.StatusLang
+   programs, proved sound for EVERY loop count, EVERY branch outcome and EVERY fault oracle whose
+   exception kinds lie in a given list (loops by a checked inductive invariant).  The property theorems
+   are then instances: the checker is evaluated on the generated pipeline by vm_compute. *)
 From Coq Require Import List Bool Arith Lia.
 Import ListNotations.
 From SCMO Require Import Lib.StatusLang.
 
-(* ---------------------------------------------------------------- finite sets of worlds *)
+(* ---------------------------------------------------------------- finite sets *)
+Section FSet.
+  Variable A : Type.
+  Variable eqb : A -> A -> bool.
+  Hypothesis eqb_eq : forall a b, eqb a b = true <-> a = b.
+
+  Definition mem (x : A) (l : list A) : bool := existsb (eqb x) l.
+
+  Lemma mem_In x l : mem x l = true <-> In x l.
+  Proof.
+    unfold mem. rewrite existsb_exists. split.
+    - intros (y & Hy & He). apply eqb_eq in He. subst. assumption.
+    - intros H. exists x. split; [assumption|]. apply eqb_eq. reflexivity.
+  Qed.
+
+  Fixpoint union (a b : list A) : list A :=
+    match a with
+    | [] => b
+    | x :: a' => let u := union a' b in if mem x u then u else x :: u
+    end.
+
+  Lemma In_union x a b : In x (union a b) <-> In x a \/ In x b.
+  Proof.
+    induction a as [|y a IH]; cbn [union].
+    - cbn. tauto.
+    - destruct (mem y (union a b)) eqn:Hm.
+      + apply mem_In in Hm. rewrite IH in *. cbn. split; [tauto|].
+        intros [[->|H]|H]; tauto.
+      + cbn. rewrite IH. tauto.
+  Qed.
+
+  Definition subsetb (a b : list A) : bool := forallb (fun x => mem x b) a.
+
+  Lemma subsetb_spec a b : subsetb a b = true -> forall x, In x a -> In x b.
+  Proof.
+    unfold subsetb. rewrite forallb_forall. intros H x Hx. apply mem_In. apply H. assumption.
+  Qed.
+End FSet.
+
 Definition world_eqb (a b : world) : bool :=
   status_eqb (st a) (st b) && Bool.eqb (ex a) (ex b) && Bool.eqb (co a) (co b) &&
   Bool.eqb (so a) (so b) && Bool.eqb (ix a) (ix b) && Bool.eqb (lost a) (lost b).
@@ -26,140 +64,176 @@ Proof.
     replace (status_eqb s2 s2) with true by (symmetry; apply status_eqb_eq; reflexivity). reflexivity.
 Qed.
 
-Definition mem (w : world) (l : list world) : bool := existsb (world_eqb w) l.
-
-Lemma mem_In w l : mem w l = true <-> In w l.
-Proof.
-  unfold mem. rewrite existsb_exists. split.
-  - intros (x & Hx & He). apply world_eqb_eq in He. subst. assumption.
-  - intros H. exists w. split; [assumption|]. apply world_eqb_eq. reflexivity.
-Qed.
-
-Fixpoint union (a b : list world) : list world :=
-  match a with
-  | [] => b
-  | x :: a' => let u := union a' b in if mem x u then u else x :: u
+Definition ekind_eqb (a b : ekind) : bool :=
+  match a, b with
+  | KRuntime, KRuntime | KValue, KValue | KOS, KOS | KTimeout, KTimeout | KMemory, KMemory
+  | KOther, KOther | KBase, KBase => true
+  | _, _ => false
   end.
+Lemma ekind_eqb_eq a b : ekind_eqb a b = true <-> a = b.
+Proof. destruct a, b; cbn; split; intros H; try reflexivity; discriminate. Qed.
 
-Lemma In_union x a b : In x (union a b) <-> In x a \/ In x b.
+Definition res_eqb (a b : res) : bool :=
+  match a, b with
+  | RNormal, RNormal => true
+  | RRaised x, RRaised y => ekind_eqb x y
+  | _, _ => false
+  end.
+Lemma res_eqb_eq a b : res_eqb a b = true <-> a = b.
 Proof.
-  induction a as [|y a IH]; cbn [union].
-  - cbn. tauto.
-  - destruct (mem y (union a b)) eqn:Hm.
-    + apply mem_In in Hm. rewrite IH in *. cbn. split; [tauto|].
-      intros [[->|H]|H]; tauto.
-    + cbn. rewrite IH. tauto.
+  destruct a as [|x], b as [|y]; cbn; split; intros H; try reflexivity; try discriminate.
+  - apply ekind_eqb_eq in H. subst. reflexivity.
+  - inversion H. apply ekind_eqb_eq. reflexivity.
 Qed.
 
-Definition smap (g : world -> world) (l : list world) : list world := union (map g l) [].
-
-Lemma In_smap g l x : In x l -> In (g x) (smap g l).
-Proof. intros H. unfold smap. apply In_union. left. apply in_map. assumption. Qed.
-
-Definition subsetb (a b : list world) : bool := forallb (fun x => mem x b) a.
-
-Lemma subsetb_spec a b : subsetb a b = true -> forall x, In x a -> In x b.
+Definition tw : Type := (res * world)%type.     (* an outcome: how the program ended, and the world *)
+Definition tw_eqb (a b : tw) : bool := res_eqb (fst a) (fst b) && world_eqb (snd a) (snd b).
+Lemma tw_eqb_eq a b : tw_eqb a b = true <-> a = b.
 Proof.
-  unfold subsetb. rewrite forallb_forall. intros H x Hx. apply mem_In. apply H. assumption.
+  destruct a as [r1 w1], b as [r2 w2]. unfold tw_eqb. cbn [fst snd]. split.
+  - intros H. apply andb_prop in H. destruct H as [H1 H2].
+    apply res_eqb_eq in H1. apply world_eqb_eq in H2. subst. reflexivity.
+  - intros H. inversion H; subst. apply andb_true_intro. split; [apply res_eqb_eq | apply world_eqb_eq]; reflexivity.
 Qed.
+
+Definition wunion := union world world_eqb.
+Definition tunion := union tw tw_eqb.
+Definition wsubsetb := subsetb world world_eqb.
+Definition In_wunion := In_union world world_eqb world_eqb_eq.
+Definition In_tunion := In_union tw tw_eqb tw_eqb_eq.
+Definition wsubsetb_spec := subsetb_spec world world_eqb world_eqb_eq.
+
+Definition wdedup (l : list world) : list world := wunion l [].
+Definition tdedup (l : list tw) : list tw := tunion l [].
+Lemma In_wdedup x l : In x (wdedup l) <-> In x l.
+Proof. unfold wdedup. rewrite In_wunion. cbn. tauto. Qed.
+Lemma In_tdedup x l : In x (tdedup l) <-> In x l.
+Proof. unfold tdedup. rewrite In_tunion. cbn. tauto. Qed.
 
 (* ---------------------------------------------------------------- collecting semantics *)
-Record ares := mkA { nN : list world; nE : list world; nB : list world; okf : bool }.
+Record ares := mkA { outs : list tw; okf : bool }.
 
-Definition in_res (a : ares) (r : res) (w : world) : Prop :=
-  match r with RNormal => In w (nN a) | RExc => In w (nE a) | RBase => In w (nB a) end.
+Definition in_res (a : ares) (r : res) (w : world) : Prop := In (r, w) (outs a).
+
+Definition is_normal (r : res) : bool := match r with RNormal => true | _ => false end.
+
+Definition normals (o : list tw) : list world :=
+  wdedup (flat_map (fun t => if is_normal (fst t) then [snd t] else []) o).
+Definition raisedk (k : ekind) (o : list tw) : list world :=
+  wdedup (flat_map (fun t => if res_eqb (fst t) (RRaised k) then [snd t] else []) o).
+Definition raised_part (o : list tw) : list tw := filter (fun t => negb (is_normal (fst t))) o.
+
+Lemma In_normals w o : In (RNormal, w) o -> In w (normals o).
+Proof.
+  intros H. unfold normals. apply In_wdedup. apply in_flat_map. exists (RNormal, w). split; [assumption|].
+  cbn. left. reflexivity.
+Qed.
+
+Lemma In_raisedk k w o : In (RRaised k, w) o -> In w (raisedk k o).
+Proof.
+  intros H. unfold raisedk. apply In_wdedup. apply in_flat_map. exists (RRaised k, w). split; [assumption|].
+  cbn [fst snd]. replace (res_eqb (RRaised k) (RRaised k)) with true by (symmetry; apply res_eqb_eq; reflexivity).
+  cbn. left. reflexivity.
+Qed.
+
+Lemma In_raised_part k w o : In (RRaised k, w) o -> In (RRaised k, w) (raised_part o).
+Proof. intros H. unfold raised_part. apply filter_In. split; [assumption | reflexivity]. Qed.
 
 Definition mark_w (b : bool) (w : world) : world :=
   if b then mkW (st w) (ex w) (co w) (so w) (ix w) true else w.
 
-Definition r_step (e : eff) (S : list world) : ares :=
-  let bad := union S (smap (partial e) S) in
-  mkA (smap (apply e) S) bad bad true.
+Section Analysis.
+  Variable ks : list ekind.      (* the exception kinds a failing step may raise *)
 
-Fixpoint grow (fuel : nat) (F : list world -> ares) (I : list world) : list world :=
-  match fuel with
-  | O => I
-  | S k => let I' := union (nN (F I)) I in if subsetb I' I then I else grow k F I'
-  end.
+  Definition r_step (e : eff) (S : list world) : ares :=
+    mkA (tdedup (map (fun w => (RNormal, apply e w)) S ++
+                 flat_map (fun k => map (fun w => (RRaised k, w)) S) ks ++
+                 flat_map (fun k => map (fun w => (RRaised k, partial e w)) S) ks)) true.
 
-(* the analysis of each construct, as a function of the analysis [F]/[G] of its parts *)
-Definition seq_res (F G : list world -> ares) (S : list world) : ares :=
-  let ra := F S in
-  let rb := G (nN ra) in
-  mkA (nN rb) (union (nE ra) (nE rb)) (union (nB ra) (nB rb)) (okf ra && okf rb).
+  Definition seq_res (F G : list world -> ares) (S : list world) : ares :=
+    let ra := F S in
+    let rb := G (normals (outs ra)) in
+    mkA (tunion (raised_part (outs ra)) (outs rb)) (okf ra && okf rb).
 
-Definition loop_one (h : eff) (F : list world -> ares) (I : list world) : ares :=
-  let rh := r_step h I in
-  let rb := F (nN rh) in
-  mkA (nN rb) (union (nE rh) (nE rb)) (union (nB rh) (nB rb)) (okf rb).
+  Definition loop_one (h : eff) (F : list world -> ares) : list world -> ares := seq_res (r_step h) F.
 
-Definition loop_fuel : nat := 64.
+  Fixpoint grow (fuel : nat) (F : list world -> ares) (I : list world) : list world :=
+    match fuel with
+    | O => I
+    | S k => let I' := wunion (normals (outs (F I))) I in if wsubsetb I' I then I else grow k F I'
+    end.
 
-Definition loop_res (h : eff) (F : list world -> ares) (S : list world) : ares :=
-  let I := grow loop_fuel (loop_one h F) S in
-  let r1 := loop_one h F I in
-  let rl := r_step ENop I in
-  mkA (nN rl) (union (nE r1) (nE rl)) (union (nB r1) (nB rl))
-      (okf r1 && subsetb (nN r1) I && subsetb S I).
+  Definition loop_fuel : nat := 64.
 
-Definition try_res (mkb reraise cb : bool) (F H : list world -> ares) (S : list world) : ares :=
-  let rb := F S in
-  let mk := smap (mark_w mkb) in
-  let hE := H (mk (nE rb)) in
-  let hB := if cb then H (mk (nB rb)) else mkA [] [] (nB rb) true in
-  mkA (union (nN rb) (if reraise then [] else union (nN hE) (nN hB)))
-      (union (nE hE) (union (nE hB) (if reraise then nN hE else [])))
-      (union (nB hE) (union (nB hB) (if reraise then nN hB else [])))
-      (okf rb && okf hE && okf hB).
+  Definition loop_res (h : eff) (F : list world -> ares) (S : list world) : ares :=
+    let I := grow loop_fuel (loop_one h F) S in
+    let r1 := loop_one h F I in
+    let rl := r_step ENop I in
+    mkA (tunion (raised_part (outs r1)) (outs rl))
+        (okf r1 && wsubsetb (normals (outs r1)) I && wsubsetb S I).
 
-Definition choice_res (F G : list world -> ares) (S : list world) : ares :=
-  let ra := F S in
-  let rb := G S in
-  mkA (union (nN ra) (nN rb)) (union (nE ra) (nE rb)) (union (nB ra) (nB rb)) (okf ra && okf rb).
+  (* what the handler does with the outcomes of kind k of the body *)
+  Definition handle_k (mkb reraise : bool) (H : list world -> ares) (o : list tw) (k : ekind) : ares :=
+    let hk := H (wdedup (map (mark_w mkb) (raisedk k o))) in
+    mkA (raised_part (outs hk) ++
+         map (fun w => (if reraise then RRaised k else RNormal, w)) (normals (outs hk))) (okf hk).
 
-(* [sound F run]: F over-approximates what [run] can do from any configuration whose world is in S *)
-Definition sound (F : list world -> ares) (run : cfg -> res * cfg) : Prop :=
-  forall S s r s', okf (F S) = true -> In (wd s) S -> run s = (r, s') -> in_res (F S) r (wd s').
+  Definition try_res (mkb reraise : bool) (hs : list hclass) (F H : list world -> ares) (S : list world) : ares :=
+    let rb := F S in
+    let pass := filter (fun t => match fst t with RNormal => true | RRaised k => negb (catches hs k) end) (outs rb) in
+    let caught := filter (catches hs) all_kinds in
+    mkA (tdedup (pass ++ flat_map (fun k => outs (handle_k mkb reraise H (outs rb) k)) caught))
+        (okf rb && forallb (fun k => okf (handle_k mkb reraise H (outs rb) k)) caught).
 
-Section Constructs.
+  Definition choice_res (F G : list world -> ares) (S : list world) : ares :=
+    let ra := F S in
+    let rb := G S in
+    mkA (tunion (outs ra) (outs rb)) (okf ra && okf rb).
+
+  (* [sound F run]: F over-approximates what [run] can do from any configuration whose world is in S *)
+  Definition sound (F : list world -> ares) (run : cfg -> res * cfg) : Prop :=
+    forall S s r s', okf (F S) = true -> In (wd s) S -> run s = (r, s') -> in_res (F S) r (wd s').
+
   Variable f : nat -> fault.
+  Hypothesis f_kinds : forall i, match f i with FNone => True | FBefore k => In k ks | FPartial k => In k ks end.
 
   Lemma step_sound l e : sound (r_step e) (step f l e).
   Proof.
-    intros S s r s' _ Hin Hst. unfold step in Hst. unfold r_step.
-    destruct (f (cn s)) as [|b|b]; inversion Hst; subst; clear Hst; cbn [wd].
-    - cbn. apply In_smap. assumption.
-    - destruct b; cbn; apply In_union; left; assumption.
-    - destruct b; cbn; apply In_union; right; apply In_smap; assumption.
+    intros S s r s' _ Hin Hst. unfold step in Hst. unfold r_step, in_res. cbn [outs].
+    pose proof (f_kinds (cn s)) as Hk.
+    apply In_tdedup. rewrite !in_app_iff.
+    destruct (f (cn s)) as [|k|k]; inversion Hst; subst; clear Hst; cbn [wd].
+    - left. apply in_map_iff. exists (wd s). split; [reflexivity | assumption].
+    - right. left. apply in_flat_map. exists k. split; [assumption|].
+      apply in_map_iff. exists (wd s). split; [reflexivity | assumption].
+    - right. right. apply in_flat_map. exists k. split; [assumption|].
+      apply in_map_iff. exists (wd s). split; [reflexivity | assumption].
   Qed.
 
   Lemma seq_sound F G ra rb : sound F ra -> sound G rb ->
     sound (seq_res F G) (fun s => let (r, s1) := ra s in match r with RNormal => rb s1 | _ => (r, s1) end).
   Proof.
-    intros HF HG S s r s' Hok Hin Hex. unfold seq_res in *. cbn zeta in *. cbn [okf] in Hok.
+    intros HF HG S s r s' Hok Hin Hex. unfold seq_res, in_res in *. cbn zeta in *. cbn [okf outs] in *.
     apply andb_prop in Hok. destruct Hok as [Hoka Hokb].
     destruct (ra s) as [r1 s1] eqn:Ha.
-    pose proof (HF S s r1 s1 Hoka Hin Ha) as H1.
-    destruct r1.
-    - cbn [in_res] in H1. pose proof (HG _ s1 r s' Hokb H1 Hex) as H2.
-      destruct r; cbn [in_res nN nE nB] in *;
-        [exact H2 | apply In_union; right; exact H2 | apply In_union; right; exact H2].
-    - inversion Hex; subst. cbn [in_res nE] in *. apply In_union. left. exact H1.
-    - inversion Hex; subst. cbn [in_res nB] in *. apply In_union. left. exact H1.
+    pose proof (HF S s r1 s1 Hoka Hin Ha) as H1. unfold in_res in H1.
+    apply In_tunion.
+    destruct r1 as [|k].
+    - right. apply (HG _ s1 r s' Hokb); [apply In_normals; exact H1 | exact Hex].
+    - inversion Hex; subst. left. apply In_raised_part. exact H1.
   Qed.
 
   Lemma iter_sound (one : cfg -> res * cfg) (A : ares) (I : list world) :
     (forall s r s', In (wd s) I -> one s = (r, s') -> in_res A r (wd s')) ->
-    (forall x, In x (nN A) -> In x I) ->
-    forall k s r s', In (wd s) I -> iter k one s = (r, s') ->
-      match r with RNormal => In (wd s') I | RExc => In (wd s') (nE A) | RBase => In (wd s') (nB A) end.
+    (forall x, In x (normals (outs A)) -> In x I) ->
+    forall n s r s', In (wd s) I -> iter n one s = (r, s') ->
+      match r with RNormal => In (wd s') I | RRaised k => In (RRaised k, wd s') (outs A) end.
   Proof.
-    intros Hone Hsub. induction k as [|k IH]; intros s r s' Hin Hit; cbn [iter] in Hit.
+    intros Hone Hsub. induction n as [|n IH]; intros s r s' Hin Hit; cbn [iter] in Hit.
     - inversion Hit; subst. assumption.
-    - destruct (one s) as [r0 s0] eqn:H1. specialize (Hone _ _ _ Hin H1).
-      destruct r0.
-      + apply (IH s0); [apply Hsub; exact Hone | assumption].
-      + inversion Hit; subst. exact Hone.
+    - destruct (one s) as [r0 s0] eqn:H1. specialize (Hone _ _ _ Hin H1). unfold in_res in Hone.
+      destruct r0 as [|k].
+      + apply (IH s0); [apply Hsub; apply In_normals; exact Hone | assumption].
       + inversion Hit; subst. exact Hone.
   Qed.
 
@@ -169,11 +243,11 @@ Section Constructs.
                                        match r0 with RNormal => rb s0' | _ => (r0, s0') end) s in
                 match r with RNormal => step f l ENop s1 | _ => (r, s1) end).
   Proof.
-    intros HF S s r s' Hok Hin Hex. unfold loop_res in *. cbn zeta in *.
+    intros HF S s r s' Hok Hin Hex. unfold loop_res, in_res in *. cbn zeta in *.
     revert Hok. generalize (grow loop_fuel (loop_one h F) S). intros I Hok.
-    cbn [okf] in Hok. apply andb_prop in Hok. destruct Hok as [Hok HsubS].
+    cbn [okf outs] in *. apply andb_prop in Hok. destruct Hok as [Hok HsubS].
     apply andb_prop in Hok. destruct Hok as [Hok1 HsubN].
-    pose proof (subsetb_spec _ _ HsubS) as HS. pose proof (subsetb_spec _ _ HsubN) as HN.
+    pose proof (wsubsetb_spec _ _ HsubS) as HS. pose proof (wsubsetb_spec _ _ HsubN) as HN.
     pose proof (seq_sound _ _ _ _ (step_sound l h) HF) as Hone. fold (loop_one h F) in Hone.
     match type of Hex with context [iter ?k ?o s] => destruct (iter k o s) as [ri si] eqn:Hit end.
     assert (Hone' : forall s0 r0 s0', In (wd s0) I ->
@@ -181,83 +255,78 @@ Section Constructs.
               in_res (loop_one h F I) r0 (wd s0')).
     { intros s0 r0 s0' Hin0 H0. apply (Hone I s0 r0 s0'); [exact Hok1 | exact Hin0 | exact H0]. }
     pose proof (iter_sound _ (loop_one h F I) I Hone' HN n s ri si (HS _ Hin) Hit) as Hres.
-    destruct ri.
-    - pose proof (step_sound l ENop I si r s' eq_refl Hres Hex) as Hl.
-      destruct r; cbn [in_res nN nE nB] in *;
-        [exact Hl | apply In_union; right; exact Hl | apply In_union; right; exact Hl].
-    - inversion Hex; subst. cbn [in_res nE]. apply In_union. left. exact Hres.
-    - inversion Hex; subst. cbn [in_res nB]. apply In_union. left. exact Hres.
+    apply In_tunion.
+    destruct ri as [|k].
+    - right. exact (step_sound l ENop I si r s' eq_refl Hres Hex).
+    - inversion Hex; subst. left. apply In_raised_part. exact Hres.
   Qed.
 
-  Lemma try_sound mkb reraise cb F H rb rh : sound F rb -> sound H rh ->
-    sound (try_res mkb reraise cb F H)
+  Lemma all_kinds_complete k : In k all_kinds.
+  Proof. destruct k; cbn; tauto. Qed.
+
+  Lemma try_sound mkb reraise hs F H rb rh : sound F rb -> sound H rh ->
+    sound (try_res mkb reraise hs F H)
       (fun s => let (r, s1) := rb s in
-                let handle := let (r2, s2) := rh (mark mkb s1) in
-                              match r2 with RNormal => (if reraise then r else RNormal, s2) | _ => (r2, s2) end in
-                match r with RNormal => (RNormal, s1) | RExc => handle
-                           | RBase => if cb then handle else (RBase, s1) end).
+                match r with
+                | RNormal => (RNormal, s1)
+                | RRaised k =>
+                    if catches hs k then
+                      let (r2, s2) := rh (mark mkb s1) in
+                      match r2 with RNormal => (if reraise then r else RNormal, s2) | _ => (r2, s2) end
+                    else (r, s1)
+                end).
   Proof.
-    intros HF HH S s r s' Hok Hin Hex. unfold try_res in *. cbn zeta in *. cbn [okf] in Hok.
-    apply andb_prop in Hok. destruct Hok as [Hok HokB].
-    apply andb_prop in Hok. destruct Hok as [Hokb HokE].
+    intros HF HH S s r s' Hok Hin Hex. unfold try_res, in_res in *. cbn zeta in *. cbn [okf outs] in *.
+    apply andb_prop in Hok. destruct Hok as [Hokb HokH].
     destruct (rb s) as [r1 sb] eqn:Hb.
-    pose proof (HF S s r1 sb Hokb Hin Hb) as H1.
-    assert (Hmk : wd (mark mkb sb) = mark_w mkb (wd sb)).
-    { unfold mark, mark_w. destruct mkb; reflexivity. }
-    destruct r1.
-    - inversion Hex; subst. cbn [in_res nN] in *. apply In_union. left. exact H1.
-    - destruct (rh (mark mkb sb)) as [r2 s2] eqn:Hh. cbn [in_res] in H1.
-      assert (Hin2 : In (wd (mark mkb sb)) (smap (mark_w mkb) (nE (F S)))).
-      { rewrite Hmk. apply In_smap. exact H1. }
-      pose proof (HH _ _ r2 s2 HokE Hin2 Hh) as H2.
-      destruct r2; inversion Hex; subst; clear Hex; cbn [in_res] in H2.
-      + destruct reraise; cbn [in_res nN nE nB].
-        * apply In_union. right. apply In_union. right. exact H2.
-        * apply In_union. right. apply In_union. left. exact H2.
-      + cbn [in_res nE]. apply In_union. left. exact H2.
-      + cbn [in_res nB]. apply In_union. left. exact H2.
-    - cbn [in_res] in H1. destruct cb.
-      + destruct (rh (mark mkb sb)) as [r2 s2] eqn:Hh.
-        assert (Hin2 : In (wd (mark mkb sb)) (smap (mark_w mkb) (nB (F S)))).
-        { rewrite Hmk. apply In_smap. exact H1. }
-        pose proof (HH _ _ r2 s2 HokB Hin2 Hh) as H2.
-        destruct r2; inversion Hex; subst; clear Hex; cbn [in_res] in H2.
-        * destruct reraise; cbn [in_res nN nE nB].
-          -- apply In_union. right. apply In_union. right. exact H2.
-          -- apply In_union. right. apply In_union. right. exact H2.
-        * cbn [in_res nE]. apply In_union. right. apply In_union. left. exact H2.
-        * cbn [in_res nB]. apply In_union. right. apply In_union. left. exact H2.
-      + inversion Hex; subst. cbn [in_res nB]. apply In_union. right. apply In_union. left. cbn [nB]. exact H1.
+    pose proof (HF S s r1 sb Hokb Hin Hb) as H1. unfold in_res in H1.
+    apply In_tdedup. apply in_app_iff.
+    destruct r1 as [|k].
+    - inversion Hex; subst. left. apply filter_In. split; [exact H1 | reflexivity].
+    - destruct (catches hs k) eqn:Hc.
+      + right. apply in_flat_map. exists k.
+        assert (Hk : In k (filter (catches hs) all_kinds)).
+        { apply filter_In. split; [apply all_kinds_complete | exact Hc]. }
+        split; [exact Hk|].
+        rewrite forallb_forall in HokH. specialize (HokH k Hk).
+        unfold handle_k in *. cbn [okf outs] in *.
+        destruct (rh (mark mkb sb)) as [r2 s2] eqn:Hh.
+        assert (Hmk : wd (mark mkb sb) = mark_w mkb (wd sb)).
+        { unfold mark, mark_w. destruct mkb; reflexivity. }
+        assert (Hin2 : In (wd (mark mkb sb)) (wdedup (map (mark_w mkb) (raisedk k (outs (F S)))))).
+        { rewrite Hmk. apply In_wdedup. apply in_map. apply In_raisedk. exact H1. }
+        pose proof (HH _ _ r2 s2 HokH Hin2 Hh) as H2. unfold in_res in H2.
+        apply in_app_iff.
+        destruct r2 as [|k2]; inversion Hex; subst; clear Hex.
+        * right. apply in_map_iff. exists (wd s'). split; [reflexivity | apply In_normals; exact H2].
+        * left. apply In_raised_part. exact H2.
+      + inversion Hex; subst. left. apply filter_In. split; [exact H1|]. cbn [fst]. rewrite Hc. reflexivity.
   Qed.
 
   Lemma choice_sound_l F G ra : sound F ra -> sound (choice_res F G) ra.
   Proof.
-    intros HF S s r s' Hok Hin Hex. unfold choice_res in *. cbn zeta in *. cbn [okf] in Hok.
+    intros HF S s r s' Hok Hin Hex. unfold choice_res, in_res in *. cbn zeta in *. cbn [okf outs] in *.
     apply andb_prop in Hok. destruct Hok as [Hoka Hokb].
-    pose proof (HF S s r s' Hoka Hin Hex) as H1.
-    destruct r; cbn [in_res nN nE nB] in *; apply In_union; left; exact H1.
+    apply In_tunion. left. exact (HF S s r s' Hoka Hin Hex).
   Qed.
 
   Lemma choice_sound_r F G rb : sound G rb -> sound (choice_res F G) rb.
   Proof.
-    intros HG S s r s' Hok Hin Hex. unfold choice_res in *. cbn zeta in *. cbn [okf] in Hok.
+    intros HG S s r s' Hok Hin Hex. unfold choice_res, in_res in *. cbn zeta in *. cbn [okf outs] in *.
     apply andb_prop in Hok. destruct Hok as [Hoka Hokb].
-    pose proof (HG S s r s' Hokb Hin Hex) as H1.
-    destruct r; cbn [in_res nN nE nB] in *; apply In_union; right; exact H1.
+    apply In_tunion. right. exact (HG S s r s' Hokb Hin Hex).
   Qed.
-End Constructs.
 
-Section Reach.
   Variable chk : nat -> option bool.   (* branch outcomes fixed by a hypothesis of the theorem *)
 
   Fixpoint reach (p : prog) : list world -> ares :=
     match p with
-    | Skip => fun S => mkA S [] [] true
+    | Skip => fun S => mkA (map (fun w => (RNormal, w)) S) true
     | Step _ e => r_step e
-    | Raise _ => fun S => mkA [] S [] true
+    | Raise _ k => fun S => mkA (map (fun w => (RRaised k, w)) S) true
     | Seq a b => seq_res (reach a) (reach b)
     | Loop _ _ h body => loop_res h (reach body)
-    | Try body h reraise cb => try_res (negb reraise && has_unit body) reraise cb (reach body) (reach h)
+    | Try body h reraise hs => try_res (negb reraise && has_unit body) reraise hs (reach body) (reach h)
     | Choice id a b =>
         match chk id with
         | Some true => reach a
@@ -268,24 +337,25 @@ Section Reach.
 
   Variable cnt : nat -> nat.
   Variable ch : nat -> bool.
-  Variable f : nat -> fault.
   Hypothesis chk_ok : forall id b, chk id = Some b -> ch id = b.
 
   Theorem reach_sound : forall p, sound (reach p) (exec cnt ch f p).
   Proof.
-    induction p as [|l e|l|a IHa b IHb|id l h body IHbody|body IHbody h IHh reraise cb|id a IHa b IHb].
-    - intros S s r s' _ Hin Hex. cbn in Hex. inversion Hex; subst. cbn. exact Hin.
-    - exact (step_sound f l e).
-    - intros S s r s' _ Hin Hex. cbn in Hex. inversion Hex; subst. cbn. exact Hin.
+    induction p as [|l e|l k|a IHa b IHb|id l h body IHbody|body IHbody h IHh reraise hs|id a IHa b IHb].
+    - intros S s r s' _ Hin Hex. cbn in Hex. inversion Hex; subst. unfold in_res. cbn.
+      apply in_map_iff. exists (wd s'). split; [reflexivity | exact Hin].
+    - exact (step_sound l e).
+    - intros S s r s' _ Hin Hex. cbn in Hex. inversion Hex; subst. unfold in_res. cbn.
+      apply in_map_iff. exists (wd s). split; [reflexivity | exact Hin].
     - exact (seq_sound _ _ _ _ IHa IHb).
-    - exact (loop_sound f (cnt id) l h _ _ IHbody).
-    - exact (try_sound _ reraise cb _ _ _ _ IHbody IHh).
+    - exact (loop_sound (cnt id) l h _ _ IHbody).
+    - exact (try_sound _ reraise hs _ _ _ _ IHbody IHh).
     - cbn [reach exec]. destruct (chk id) as [[|]|] eqn:Hc.
       + rewrite (chk_ok _ _ Hc). exact IHa.
       + rewrite (chk_ok _ _ Hc). exact IHb.
       + destruct (ch id); [exact (choice_sound_l _ _ _ IHa) | exact (choice_sound_r _ _ _ IHb)].
   Qed.
-End Reach.
+End Analysis.
 
 (* ---------------------------------------------------------------- all worlds *)
 Definition all_status := [SNone; SUnfinished; SFail; SOk; SOther].
@@ -309,35 +379,42 @@ Proof.
 Qed.
 
 (* ---------------------------------------------------------------- the checker and its soundness *)
-Definition check (chk : nat -> option bool) (p : prog) (init PN PE PB : world -> bool) : bool :=
-  let a := reach chk p (filter init all_worlds) in
-  okf a && forallb PN (nN a) && forallb PE (nE a) && forallb PB (nB a).
+Definition check (ks : list ekind) (chk : nat -> option bool) (p : prog) (init : world -> bool)
+                 (P : res -> world -> bool) : bool :=
+  let a := reach ks chk p (filter init all_worlds) in
+  okf a && forallb (fun t => P (fst t) (snd t)) (outs a).
 
-Theorem check_sound chk p init PN PE PB :
-  check chk p init PN PE PB = true ->
+Theorem check_sound ks chk p init P :
+  check ks chk p init P = true ->
   forall cnt ch f w0 r s,
+    (forall i, match f i with FNone => True | FBefore k => In k ks | FPartial k => In k ks end) ->
     (forall id b, chk id = Some b -> ch id = b) ->
     init w0 = true ->
     exec cnt ch f p (mkC 0 w0 []) = (r, s) ->
-    match r with RNormal => PN (wd s) = true | RExc => PE (wd s) = true | RBase => PB (wd s) = true end.
+    P r (wd s) = true.
 Proof.
-  unfold check. intros H cnt ch f w0 r s Hchk Hinit Hex.
-  apply andb_prop in H. destruct H as [H HB]. apply andb_prop in H. destruct H as [H HE].
-  apply andb_prop in H. destruct H as [Hok HN].
+  unfold check. intros H cnt ch f w0 r s Hf Hchk Hinit Hex.
+  apply andb_prop in H. destruct H as [Hok HP].
   assert (Hin : In (wd (mkC 0 w0 [])) (filter init all_worlds)).
   { cbn [wd]. apply filter_In. split; [apply all_worlds_complete | assumption]. }
-  pose proof (reach_sound chk cnt ch f Hchk p _ _ r s Hok Hin Hex) as Hr.
-  rewrite forallb_forall in HN, HE, HB.
-  destruct r; cbn [in_res] in Hr; auto.
+  pose proof (reach_sound ks f Hf chk cnt ch Hchk p _ _ r s Hok Hin Hex) as Hr.
+  unfold in_res in Hr. rewrite forallb_forall in HP. exact (HP _ Hr).
 Qed.
 
+Lemma any_kind f : forall i : nat, match f i with FNone => True | FBefore k => In k all_kinds | FPartial k => In k all_kinds end.
+Proof. intros i. destruct (f i) as [|k|k]; [exact I | destruct k; cbn; tauto | destruct k; cbn; tauto]. Qed.
+
 Definition no_chk : nat -> option bool := fun _ => None.
-Definition tt_w : world -> bool := fun _ => true.
 Definition not_ok (w : world) : bool := negb (status_eqb (st w) SOk).
-Definition ok_and_four (w : world) : bool := status_eqb (st w) SOk && (ex w && co w && so w && ix w).
 Definition four (w : world) : bool := ex w && co w && so w && ix w.
+Definition ok_and_four (w : world) : bool := status_eqb (st w) SOk && four w.
 Definition inv_init (w : world) : bool := invb w && negb (lost w).
 Definition fresh (w : world) : bool := negb (lost w).
+
+Definition P_inv (r : res) (w : world) : bool := invb w.
+Definition P_end (r : res) (w : world) : bool := match r with RNormal => ok_and_four w | _ => true end.
+Definition P_fail (r : res) (w : world) : bool := match r with RNormal => true | _ => not_ok w end.
+Definition P_four (r : res) (w : world) : bool := match r with RNormal => four w | _ => true end.
 
 Lemma invb_spec w : invb w = true -> st w = SOk ->
   ex w = true /\ co w = true /\ so w = true /\ ix w = true.
@@ -345,3 +422,6 @@ Proof.
   unfold invb. intros H Hs. rewrite Hs in H. cbn in H.
   repeat (apply andb_prop in H; destruct H as [H ?]). auto.
 Qed.
+
+Lemma four_spec w : four w = true -> ex w = true /\ co w = true /\ so w = true /\ ix w = true.
+Proof. unfold four. intros H. repeat (apply andb_prop in H; destruct H as [H ?]). auto. Qed.
